@@ -9,6 +9,12 @@ Fractions and
      on the same exactly-converted inputs (|impl-model| <= 1e-9*|model| + 2^-50*p + 2^-1070 per X/Y/Z entry,
      2^-50 absolute for Pr(I)).
 Constructor domains are compared with the model's decision functions (exception classes).
+Inputs: fresh objects over grids and random parameters; the end points of [0,1] and their binary64 neighbours for every
+model and parameter value (an exception there is a violation; for biased-Y-X a failure is filed under a known F3 key only
+when it is exactly the outcome of the pinned closed forms, see yx_pinned); and object-reuse HISTORIES -- live objects
+swept over many p with attributes read in between in every order, repeated p, pools of several live objects, returned
+mutable values overwritten -- every answer checked like a fresh one against the pure model (the object model and its
+history-independence theorem are in ErrorModels/DistEnds.v), attributes required to stay the documented values.
 A sample is re-checked inside Coq (vm_compute) with the verified checkers valid_dist / close_dist."""
 import json
 import math
@@ -58,7 +64,10 @@ def frac_dist(d):
     """implementation output -> 4 exact Fractions (None when an entry is not a finite real number)"""
     out = []
     for v in d:
-        f = float(v)
+        try:
+            f = float(v)
+        except (TypeError, ValueError):
+            return None
         if not math.isfinite(f):
             return None
         out.append(F(f))
@@ -111,19 +120,82 @@ def yx_healthy(bias, p):
     return bias == 0 or (0.01 <= bias <= 100 and 0.01 <= p <= 0.99)
 
 
+def yx_pinned(bias, p):
+    """Fingerprint of known finding F3: the closed forms of the pinned commit, evaluated in binary64 exactly as
+    written there.  It is NEVER used as an expected value.  Its only use: outside the healthy region a failing
+    outcome of the implementation is filed under an F3 key only when it is *this* outcome (same exception class, or
+    the same four floats) -- i.e. the finding key names the listed defective behaviour at that input, and any other
+    failure at the same input (another exception, other wrong numbers) is reported as a new violation."""
+    try:
+        h = bias
+        if h == 0:
+            rx, ry = p, 0
+        else:
+            rx = 1 / 2 * (1 + h + p - h * p - math.sqrt(-4 * p + (1 + h + p - h * p) ** 2))
+            ry = 1 / (2 * h) * (1 + h - p + h * p - math.sqrt(-4 * p + (1 + h + p - h * p) ** 2))
+        px, py, pz = rx * (1 - ry), ry * (1 - rx), rx * ry
+        return (1 - sum((px, py, pz)), px, py, pz)
+    except (ValueError, OverflowError, ZeroDivisionError) as e:
+        return type(e).__name__
+
+
+def same_floats(d, ref):
+    try:
+        return (isinstance(ref, tuple) and len(d) == 4
+                and all(float(a) == float(b) or (float(a) != float(a) and float(b) != float(b)) for a, b in zip(d, ref)))
+    except (TypeError, ValueError):
+        return False
+
+
+class Hist:
+    """an operation history over a pool of live model objects (replayable: see replay())"""
+    n = 0
+
+    def __init__(self, specs):
+        Hist.n += 1
+        self.hid = Hist.n
+        self.specs = specs
+        self.ops = []
+
+    def snap(self):
+        return {'instances': self.specs, 'ops': [list(o) for o in self.ops], 'failing_op': len(self.ops) - 1}
+
+
+def with_hist(rep, hist):
+    if hist is not None:
+        rep = dict(rep, history=hist.snap())
+    return rep
+
+
 def run(ctx):
     from qecsim.models.generic import (DepolarizingErrorModel, BitFlipErrorModel, PhaseFlipErrorModel,
                                        BitPhaseFlipErrorModel, BiasedDepolarizingErrorModel, BiasedYXErrorModel,
                                        CenterSliceErrorModel)
     rng = ctx.rng
+    import os
+    import sys
+    import time
+    t_start = [time.time()]
+
+    def lap(what):
+        if os.environ.get('VERIF_PROF'):
+            sys.stderr.write('[c16 %7.1fs] %s\n' % (time.time() - t_start[0], what))
     warnings.filterwarnings('ignore', category=RuntimeWarning)   # nan/inf limits of the F4 probes
-    ctx.rule = ('every IID model; p over the grid {0, 1, 2^-1074, 1e-300, 1e-17, ..., 1-2^-53} and random in [0,1]; '
+    ctx.rule = ('every IID model; p over the grid {0, 1, 2^-1074, 1e-300, 1e-17, ..., 1-2^-53} and random in [0,1]; the end '
+                'points 0, 1, nextafter(0,1), nextafter(1,0), 2^-1022, 1-2^-52 for every model and every grid / 40 random '
+                'parameter values (biased-Y-X included: an exception or a wrong answer there is excused as F3 only when it is '
+                'exactly the outcome of the pinned closed forms); object-reuse histories: one live object swept over many p '
+                '(every model, every grid parameter) and random histories over pools of 1-3 live objects, attributes read '
+                'in between in every order, repeated p, returned mutable values overwritten, every answer checked like a '
+                'fresh one and attributes required unchanged; '
                 'bias log-uniform in [1e-6,1e12] (biased-depolarizing, all axes, both cases) and in [1e-2,1e2] plus 0 '
                 '(Y-X healthy region, p in [0.01,0.99]) with the cancellation region (F3) swept separately; slice '
                 'limits with one or two zeros, pos in [-1,1] incl. 0, +-1, +-1e-12; constructor stream (negative / nan / '
                 'inf / non-numeric bias, bad axis, lim of wrong length / all zero / no zero / negative / nan entries, '
                 'pos out of range, wrong types). nontrivial = p not in {0,1} with a non-default parameter')
+    lap('start')
     ctx.props_obligations()
+    lap('props')
     # Print Assumptions prints the three Reals axioms over several lines; name them properly
     try:
         import os
@@ -141,7 +213,7 @@ def run(ctx):
         pass
     ctx.trusted += [
         'Python fractions.Fraction(float) as the exact value of a binary64 number; math.isqrt for the rational root '
-        'handed to the Y-X model (accuracy 2^-bits, bits >= 400)',
+        'handed to the Y-X model (accuracy 2^-bits, bits >= 160 + log2(1/p) + log2(1/bias): at most 2^-158 p on any entry)',
         'Coq Reals standard-library axioms for the four biased-Y-X theorems over R (named by Print Assumptions)',
     ]
     nq, nt = 1, 8
@@ -149,6 +221,12 @@ def run(ctx):
 
     pgrid = [0.0, 1.0, 2.0 ** -1074, 1e-300, 1e-17, 1e-9, 1e-3, 0.01, 0.1, 0.25, 1 / 3, 0.4, 0.5, 2 / 3, 0.75, 0.9,
              0.99, 0.999, 1 - 2.0 ** -20, 1 - 2.0 ** -53]
+    # the two end points of [0,1], their binary64 neighbours, and the next layer (every model and every parameter
+    # value is evaluated on all of them: an exception there for an accepted parameter is a violation)
+    ends = [0.0, 1.0, math.nextafter(0.0, 1.0), math.nextafter(1.0, 0.0)]
+    endpoints = [2.0 ** -1022, 1 - 2.0 ** -52]      # beyond those already in pgrid
+    assert all(v in pgrid for v in ends)
+    ends = ends + endpoints
 
     def rand_p():
         r = rng.random()
@@ -167,14 +245,15 @@ def run(ctx):
         pend.append(fn)
 
     kern = []              # in-kernel sample
+    kern2 = []             # in-kernel sample of the object-reuse histories and the endpoint sweeps
     fkern = []             # bit-exact binary64 cases (simple models and biased-depolarizing)
 
     seen_keys = {}
 
     def viol(key, what, rep):
-        # at most 3 recorded inputs per key (Ctx keeps 200 in all; a region finding must not crowd out others)
+        # at most 2 recorded inputs per key (Ctx keeps 200 in all; a region finding must not crowd out others)
         seen_keys[key] = seen_keys.get(key, 0) + 1
-        if seen_keys[key] <= 3:
+        if seen_keys[key] <= 2:
             ctx.violation(key, what, rep)
 
     def call_pd(model, p):
@@ -184,9 +263,15 @@ def run(ctx):
             return None, e
 
     # ---- (a) the property evaluated directly on the floats ----------------------------------
-    def direct_common(name, params, p, d, keys, t=T50):
+    def direct_common(name, params, p, d, keys, t=T50, hist=None):
         """non-negativity, sum, Pr(I); `keys` maps a defect class to a (known) key where a region is known"""
-        rep = {'model': name, 'params': params, 'p': p, 'p_hex': float(p).hex(), 'got': [repr(v) for v in d]}
+        rep = with_hist({'model': name, 'params': params, 'p': p, 'p_hex': float(p).hex(), 'got': [repr(v) for v in d]}, hist)
+        try:
+            if len(d) != 4:
+                raise TypeError
+        except TypeError:
+            viol('not-a-distribution', 'probability_distribution did not return four numbers', rep)
+            return None
         fd = frac_dist(d)
         if fd is None:
             viol(keys.get('nan', 'non-finite-entry'), 'distribution has a non-finite entry', rep)
@@ -211,10 +296,14 @@ def run(ctx):
     def relclose(a, b, p):
         return abs(a - b) <= REL * abs(b) + T50 * p + TINY
 
-    def model_cmp(name, params, p, fd, line, keys, sample=False, t=T50):
+    def model_cmp(name, params, p, fd, line, keys, sample=False, t=T50, hist=None):
+        hs = hist.snap() if hist is not None else None
+
         def fn(ans):
             rep = {'model': name, 'params': params, 'p': p, 'p_hex': float(p).hex(),
                    'impl': [str(v) for v in fd], 'model_answer': ans}
+            if hs is not None:
+                rep['history'] = hs
             if ans.startswith('ERR'):
                 ctx.cmp(name, rep, 'distribution', ans)
                 return
@@ -225,6 +314,9 @@ def run(ctx):
                 else:
                     # correspondence mismatch: adjudicated by the direct checks (violation if they fail too)
                     ctx.cmp(name, rep, ' '.join(qtok(v) for v in fd), ans)
+            elif sample == 'hist':
+                if len(kern2) < 400:
+                    kern2.append((p, fd, line))
             elif sample and len(kern) < 160:
                 kern.append((p, fd, line))
         ask(line, fn)
@@ -237,74 +329,90 @@ def run(ctx):
               ('bit-flip', BitFlipErrorModel, 'bitflip', lambda pf: (1 - pf, pf, 0, 0)),
               ('phase-flip', PhaseFlipErrorModel, 'phaseflip', lambda pf: (1 - pf, 0, 0, pf)),
               ('bit-phase-flip', BitPhaseFlipErrorModel, 'bitphase', lambda pf: (1 - pf, 0, pf, 0))]
-    for name, cls, tok, shape in simple:
-        ps = pgrid + [rand_p() for _ in range(120 * scale)]
-        for p in ps:
-            m = cls()
-            d, e = call_pd(m, p)
-            ctx.count((name, p), nontriv(p, True), name, {'model': name, 'p': p, 'dist': [float(v) for v in d]}
-                      if p == 0.4 else None)
-            if e is not None:
-                viol('exception', 'probability_distribution raised %s' % exc_class(e), {'model': name, 'p': p})
-                continue
-            fd = direct_common(name, {}, p, d, {})
-            if fd is None:
-                continue
-            pf = F(p)
-            want = shape(pf)
-            rep = {'model': name, 'p': p, 'p_hex': float(p).hex(), 'got': [repr(v) for v in d]}
-            if name == 'depolarizing':
-                if not (fd[1] == fd[2] == fd[3]):
-                    viol('depolarizing-thirds', 'X, Y, Z probabilities are not equal', rep)
-            for i in (1, 2, 3):
-                if want[i] == 0 and fd[i] != 0:
-                    viol('pure-model-leak', 'Pr(%s) != 0 in a pure model' % LET[i], rep)
-                if not relclose(fd[i], F(want[i]), pf):
-                    viol('shape', 'Pr(%s) is not the documented value' % LET[i], rep)
-            model_cmp(name, {}, p, fd, '%s %s' % (tok, qtok(pf)), {}, sample=(p in pgrid))
-            if len(fkern) < 4000:
-                fkern.append(('%sF %s' % ({'depol': 'depolarizing', 'bitflip': 'bit_flip', 'phaseflip': 'phase_flip',
-                                           'bitphase': 'bit_phase_flip'}[tok], coq_f(p)), d))
+    def hkey(hist):
+        return () if hist is None else ('h', hist.hid, len(hist.ops))
 
+    def simple_case(name, cls, tok, shape, p, kind, inst=None, hist=None):
+        m = cls() if inst is None else inst
+        d, e = call_pd(m, p)
+        ctx.count((name, p) + hkey(hist), nontriv(p, True), kind,
+                  {'model': name, 'p': p, 'dist': [float(v) for v in d]} if p == 0.4 and hist is None and d else None)
+        if e is not None:
+            viol('exception', 'probability_distribution raised %s' % exc_class(e), with_hist({'model': name, 'p': p}, hist))
+            return
+        fd = direct_common(name, {}, p, d, {}, hist=hist)
+        if fd is None:
+            return
+        pf = F(p)
+        want = shape(pf)
+        rep = with_hist({'model': name, 'p': p, 'p_hex': float(p).hex(), 'got': [repr(v) for v in d]}, hist)
+        if name == 'depolarizing':
+            if not (fd[1] == fd[2] == fd[3]):
+                viol('depolarizing-thirds', 'X, Y, Z probabilities are not equal', rep)
+        for i in (1, 2, 3):
+            if want[i] == 0 and fd[i] != 0:
+                viol('pure-model-leak', 'Pr(%s) != 0 in a pure model' % LET[i], rep)
+            if not relclose(fd[i], F(want[i]), pf):
+                viol('shape', 'Pr(%s) is not the documented value' % LET[i], rep)
+        model_cmp(name, {}, p, fd, '%s %s' % (tok, qtok(pf)), {}, sample=('hist' if hist is not None else p in pgrid), hist=hist)
+        if len(fkern) < 4000:
+            fkern.append(('%sF %s' % ({'depol': 'depolarizing', 'bitflip': 'bit_flip', 'phaseflip': 'phase_flip',
+                                       'bitphase': 'bit_phase_flip'}[tok], coq_f(p)), tuple(d)))
+
+    for name, cls, tok, shape in simple:
+        for p in pgrid + endpoints + [rand_p() for _ in range(120 * scale)]:
+            simple_case(name, cls, tok, shape, p, name)
+
+    lap('simple')
     # ---- 2. biased depolarizing ----------------------------------------------------------------
-    def biased_case(bias, axis, p, kind, sample=False):
+    def biased_case(bias, axis, p, kind, sample=False, inst=None, hist=None):
         try:
-            m = BiasedDepolarizingErrorModel(bias, axis)
+            m = BiasedDepolarizingErrorModel(bias, axis) if inst is None else inst
         except Exception as e:  # noqa
             viol('ctor-domain', 'documented parameters rejected: %s' % exc_class(e), {'model': 'biased', 'bias': bias, 'axis': axis})
             return
         d, e = call_pd(m, p)
         params = {'bias': bias, 'bias_hex': float(bias).hex(), 'axis': axis}
-        ctx.count(('biased', bias, axis, p), nontriv(p, True), kind,
-                  {'model': 'biased', 'bias': bias, 'axis': axis, 'p': p, 'dist': [float(v) for v in d]} if sample and p == 0.4 else None)
+        ctx.count(('biased', bias, axis, p) + hkey(hist), nontriv(p, True), kind,
+                  {'model': 'biased', 'bias': bias, 'axis': axis, 'p': p, 'dist': [float(v) for v in d]}
+                  if sample is True and p == 0.4 and d else None)
         if e is not None:
-            viol('exception', 'probability_distribution raised %s' % exc_class(e), dict(params, model='biased', p=p))
+            viol('exception', 'probability_distribution raised %s' % exc_class(e), with_hist(dict(params, model='biased', p=p), hist))
             return
-        fd = direct_common('biased', params, p, d, {'negI': 'F2-biased-negative-pI-at-p1'})
+        fd = direct_common('biased', params, p, d, {'negI': 'F2-biased-negative-pI-at-p1'}, hist=hist)
         if fd is None:
             return
         pf, bf = F(p), F(bias)
         ax = axis.upper()
         hi = fd[LET.index(ax)]
         lo = [fd[i] for i in (1, 2, 3) if LET[i] != ax]
-        rep = dict(params, model='biased', p=p, p_hex=float(p).hex(), got=[repr(v) for v in d])
+        rep = with_hist(dict(params, model='biased', p=p, p_hex=float(p).hex(), got=[repr(v) for v in d]), hist)
         if lo[0] != lo[1]:
             viol('biased-low-rates', 'the two off-axis probabilities differ', rep)
-        # bias = high rate / sum of the low rates (division free, relative 1e-9)
-        if not relclose(hi, bf * (lo[0] + lo[1]), pf):
+        # bias = high rate / sum of the low rates (division free, relative 1e-9; a binary64 low rate carries an
+        # absolute representation error of up to 2^-1075 (half the subnormal quantum), which the bias multiplies)
+        if not relclose(hi, bf * (lo[0] + lo[1]), pf) and abs(hi - bf * (lo[0] + lo[1])) > bf * F(4, 2 ** 1075):
             viol('biased-ratio', 'high-rate / (sum of low rates) != bias', rep)
         if not relclose(hi + lo[0] + lo[1], pf, pf):
             viol('biased-sum', 'X+Y+Z != p', rep)
-        model_cmp('biased', params, p, fd, 'biased %s %s %s' % (qtok(bf), ax, qtok(pf)), {}, sample=sample)
+        model_cmp('biased', params, p, fd, 'biased %s %s %s' % (qtok(bf), ax, qtok(pf)), {}, sample=sample, hist=hist)
         if isinstance(bias, float) and len(fkern) < 4000:
-            fkern.append(('biasedF %s A%s %s' % (coq_f(bias), ax, coq_f(p)), d))
+            fkern.append(('biasedF %s A%s %s' % (coq_f(bias), ax, coq_f(p)), tuple(d)))
 
+    biased_grid = (0.5, 1.0, 10.0, 100.0, 0.001, 1e-6, 1e12, 3.0, 1 / 3)
     for axis in 'XYZ':
-        for bias in (0.5, 1.0, 10.0, 100.0, 0.001, 1e-6, 1e12, 3.0, 1 / 3):
+        for bias in biased_grid:
             for p in pgrid:
                 biased_case(bias, axis, p, 'biased-grid', sample=True)
+            for p in endpoints:
+                biased_case(bias, axis, p, 'biased-endpoints', sample='hist')
     for _ in range(600 * scale):
         biased_case(10 ** rng.uniform(-6, 12), rng.choice('XYZxyz'), rand_p(), 'biased-random')
+    # every end point for random parameter values
+    for _ in range(40 * scale):
+        bias, axis = 10 ** rng.uniform(-6, 12), rng.choice('XYZxyz')
+        for p in ends:
+            biased_case(bias, axis, p, 'biased-endpoints')
     # the F2 input and its neighbours, probed individually
     for axis in 'XYZ':
         biased_case(0.001, axis, 1.0, 'biased-F2-probe')
@@ -319,25 +427,41 @@ def run(ctx):
                 viol('special-bias-half', 'bias 1/2 is not the depolarizing distribution',
                      {'axis': axis, 'p': p, 'biased': [repr(v) for v in db], 'depolarizing': [repr(v) for v in dd]})
 
+    lap('biased')
     # ---- 3. biased Y-X -----------------------------------------------------------------------------
-    def yx_case(bias, p, kind, sample=False):
+    yx_tiny = [ctx.pick(16, 150)]
+    F3KEYS = {'neg': 'F3-yx-negative', 'negI': 'F3-yx-negative', 'negXYZ': 'F3-yx-negative',
+              'acc': 'F3-yx-inaccurate', 'nan': 'F3-yx-inaccurate'}
+
+    def yx_case(bias, p, kind, sample=False, inst=None, hist=None):
         healthy = yx_healthy(bias, p)
-        keys = {} if healthy else {'neg': 'F3-yx-negative', 'negI': 'F3-yx-negative', 'negXYZ': 'F3-yx-negative',
-                                   'acc': 'F3-yx-inaccurate', 'exc': 'F3-yx-domain-error', 'nan': 'F3-yx-inaccurate'}
         try:
-            m = BiasedYXErrorModel(bias)
+            m = BiasedYXErrorModel(bias) if inst is None else inst
         except Exception as e:  # noqa
             viol('ctor-domain', 'documented parameters rejected: %s' % exc_class(e), {'model': 'biased-yx', 'bias': bias})
             return
         d, e = call_pd(m, p)
         params = {'bias': bias, 'bias_hex': float(bias).hex()}
-        ctx.count(('yx', bias, p), nontriv(p, bias != 0), kind,
-                  {'model': 'biased-yx', 'bias': bias, 'p': p, 'dist': [float(v) for v in d]} if sample and p == 0.4 and d else None)
-        rep = dict(params, model='biased-yx', p=p, p_hex=float(p).hex(), got=[repr(v) for v in d] if d else None)
+        ctx.count(('yx', bias, p) + hkey(hist), nontriv(p, bias != 0), kind,
+                  {'model': 'biased-yx', 'bias': bias, 'p': p, 'dist': [float(v) for v in d]}
+                  if sample is True and p == 0.4 and d else None)
+        rep = with_hist(dict(params, model='biased-yx', p=p, p_hex=float(p).hex(), got=[repr(v) for v in d] if d else None), hist)
+        # a failure is the known finding F3 only when (bias, p) lies in the cancellation region AND the outcome is
+        # exactly the listed one (the pinned closed forms' rounding: same exception class / same four floats);
+        # everything else -- e.g. another exception at p = 1.0 -- is a new violation
+        keys = {}
+        if not healthy:
+            ref = yx_pinned(bias, p)
+            if e is not None:
+                if ref == 'ValueError' and isinstance(e, ValueError):
+                    keys = {'exc': 'F3-yx-domain-error'}
+            elif same_floats(d, ref):
+                keys = F3KEYS
+            rep['pinned_closed_forms_give'] = ref if isinstance(ref, str) else [repr(v) for v in ref]
         if e is not None:
             viol(keys.get('exc', 'exception'), 'probability_distribution raised %s: %s' % (exc_class(e), e), rep)
             return
-        fd = direct_common('biased-yx', params, p, d, keys, t=T44)
+        fd = direct_common('biased-yx', params, p, d, keys, t=T44, hist=hist)
         if fd is None:
             return
         pf, bf = F(p), F(bias)
@@ -358,15 +482,35 @@ def run(ctx):
         # exact model relative to a rational root of the discriminant
         A = 1 + bf + pf - bf * pf
         disc = A * A - 4 * pf
-        bits = 400 + 2 * max(0, -math.floor(math.log2(p))) if p > 0 else 400
+        # |s - sqrt(disc)| <= 2^-bits moves the model's entries by at most 2^-bits / min(2 bias, 1): with
+        # bits = 160 + log2(1/p) + log2(1/bias) that is below 2^-158 p, far inside the tolerance 2^-50 p
+        bits = 160 + (max(0, -math.floor(math.log2(p))) if p > 0 else 0) + max(0, -math.floor(math.log2(bias)))
+        if 0 < p < 2.0 ** -200:
+            # the extracted engine needs ~0.7 s for rationals of this size: the direct check above (the documented
+            # system, whose solution is unique: c16_yx_unique) is made always, the engine comparison on a sample
+            if yx_tiny[0] <= 0 or rng.random() >= 0.35:
+                ctx.extra['yx_tiny_p_direct_check_only'] = ctx.extra.get('yx_tiny_p_direct_check_only', 0) + 1
+                return
+            yx_tiny[0] -= 1
         s = isqrt_frac(disc, bits) if disc > 0 else F(0)
         model_cmp('biased-yx', params, p, fd, 'yx %s %s %s' % (qtok(bf), qtok(pf), qtok(s)), keys,
-                  sample=sample and healthy, t=T44)
+                  sample=(sample if healthy or not keys else False), t=T44, hist=hist)
 
-    for bias in (0.0, 0.01, 0.1, 0.5, 1.0, 2.0, 10.0, 100.0):
+    yx_grid = (0.0, 0.01, 0.1, 0.5, 1.0, 2.0, 10.0, 100.0)
+    for bias in yx_grid:
         for p in pgrid:
             if yx_healthy(bias, p):
                 yx_case(bias, p, 'yx-grid', sample=True)
+    # every grid bias on the whole p grid and on every end point, healthy region or not (no exception is excused
+    # except the listed F3 outcome)
+    for bias in yx_grid + (0.3, 3.0, 1e-3, 1e3):
+        for p in pgrid + endpoints:
+            if not (bias in yx_grid and p in pgrid and yx_healthy(bias, p)):
+                yx_case(bias, p, 'yx-endpoints', sample='hist')
+    for _ in range(40 * scale):
+        bias = rng.choice([10 ** rng.uniform(-2, 2)] * 3 + [10 ** rng.uniform(-9, 12), float(rng.randint(1, 64)), 1 / rng.randint(1, 64)])
+        for p in ends:
+            yx_case(bias, p, 'yx-endpoints')
     for _ in range(500 * scale):
         yx_case(rng.choice([0.0] + [10 ** rng.uniform(-2, 2)] * 9), rng.uniform(0.01, 0.99), 'yx-random')
     # the cancellation region (known finding F3): listed inputs and a sweep, reported under their own keys
@@ -379,6 +523,7 @@ def run(ctx):
         if not yx_healthy(bias, p):
             yx_case(bias, p, 'yx-F3-sweep')
 
+    lap('yx')
     # ---- 4. centre-slice -------------------------------------------------------------------------------
     C3 = F(1, 3)
 
@@ -397,24 +542,25 @@ def run(ctx):
         r = [C3 + abs(pf) * (end[k] - C3) for k in range(3)]
         return L, N, r
 
-    def slice_case(lim, pos, p, kind, sample=False):
+    def slice_case(lim, pos, p, kind, sample=False, inst=None, hist=None):
         try:
-            m = CenterSliceErrorModel(lim, pos)
+            m = CenterSliceErrorModel(lim, pos) if inst is None else inst
         except Exception as e:  # noqa
             viol('ctor-domain', 'documented parameters rejected: %s' % exc_class(e), {'model': 'slice', 'lim': list(lim), 'pos': pos})
             return
         d, e = call_pd(m, p)
         params = {'lim': list(lim), 'pos': pos, 'pos_hex': float(pos).hex()}
-        ctx.count(('slice', tuple(lim), pos, p), nontriv(p, pos != 0), kind,
-                  {'model': 'slice', 'lim': list(lim), 'pos': pos, 'p': p, 'dist': [float(v) for v in d]} if sample and p == 0.4 and d else None)
-        rep = dict(params, model='slice', p=p, p_hex=float(p).hex(), got=[repr(v) for v in d] if d else None)
+        ctx.count(('slice', tuple(lim), pos, p) + hkey(hist), nontriv(p, pos != 0), kind,
+                  {'model': 'slice', 'lim': list(lim), 'pos': pos, 'p': p, 'dist': [float(v) for v in d]}
+                  if sample is True and p == 0.4 and d else None)
+        rep = with_hist(dict(params, model='slice', p=p, p_hex=float(p).hex(), got=[repr(v) for v in d] if d else None), hist)
         if e is not None:
             viol('exception', 'probability_distribution raised %s: %s' % (exc_class(e), e), rep)
             return
         keys = {'negI': 'slice-negative-pI-at-p1'}
         if pos <= -1 + 2.0 ** -50:
             keys['negXYZ'] = 'slice-neglim-negative-entry'
-        fd = direct_common('slice', params, p, d, keys)
+        fd = direct_common('slice', params, p, d, keys, hist=hist)
         if fd is None:
             return
         pf = F(p)
@@ -425,16 +571,29 @@ def run(ctx):
                 break
         model_cmp('slice', params, p, fd,
                   'slice %s %s %s %s %s' % (qtok(F(lim[0])), qtok(F(lim[1])), qtok(F(lim[2])), qtok(F(pos)), qtok(pf)),
-                  {}, sample=sample)
+                  {}, sample=sample, hist=hist)
 
-    def slice_attrs(lim, pos):
-        m = CenterSliceErrorModel(lim, pos)
+    def slice_attrs(lim, pos, inst=None, hist=None, order=('lim', 'neg_lim', 'ratio')):
+        """the attributes named in `order`, read in that order (from a fresh object, or from a live one inside a
+        history), against the documented geometry and the model"""
+        m = CenterSliceErrorModel(lim, pos) if inst is None else inst
         L, N, r = slice_expected(lim, pos)
-        got = {'lim': m.lim, 'neg_lim': m.neg_lim, 'ratio': m.ratio}
-        rep = {'model': 'slice', 'lim': list(lim), 'pos': pos, 'got': {k: [repr(v) for v in got[k]] for k in got}}
-        ctx.count(('slice-attrs', tuple(lim), pos), pos != 0, 'slice-attrs')
+        got = {}
+        for k in order:
+            try:
+                got[k] = getattr(m, k)
+                len(got[k])
+            except Exception as e:  # noqa
+                viol('exception', 'reading attribute %s raised %s: %s' % (k, exc_class(e), e),
+                     with_hist({'model': 'slice', 'lim': list(lim), 'pos': pos}, hist))
+                return
+        rep = with_hist({'model': 'slice', 'lim': list(lim), 'pos': pos, 'read_order': list(order),
+                         'got': {k: [repr(v) for v in got[k]] for k in got}}, hist)
+        ctx.count(('slice-attrs', tuple(lim), pos) + hkey(hist), pos != 0, 'slice-attrs' if hist is None else 'history-attr')
         vals = {}
         for k, want in (('lim', L), ('neg_lim', N), ('ratio', r)):
+            if k not in got:
+                continue
             try:
                 vals[k] = [F(float(v)) for v in got[k]]
             except (ValueError, OverflowError):
@@ -457,8 +616,10 @@ def run(ctx):
                 ctx.cmp('slice-attrs', rep, 'attributes', ans)
                 return
             mv = [tokq(t) for t in ans.split()]
-            flat = [F(float(v)) for k in ('lim', 'neg_lim', 'ratio') for v in got[k]]
-            if any(abs(a - b) > REL * abs(b) + T50 for a, b in zip(flat, mv)):
+            names = ('lim', 'neg_lim', 'ratio')
+            flat = [F(float(v)) for k in names if k in got for v in got[k]]
+            mv = [v for i, k in enumerate(names) if k in got for v in mv[3 * i:3 * i + 3]]
+            if len(flat) != len(mv) or any(abs(a - b) > REL * abs(b) + T50 for a, b in zip(flat, mv)):
                 ctx.cmp('slice-attrs', rep, ' '.join(qtok(v) for v in flat), ans)
         ask('sliceattrs %s %s %s %s' % (qtok(F(lim[0])), qtok(F(lim[1])), qtok(F(lim[2])), qtok(F(pos))), fn)
 
@@ -488,16 +649,25 @@ def run(ctx):
 
     fixed_lims = [(1, 0, 0), (0, 1, 0), (0, 0, 1), (1, 1, 0), (0, 1, 1), (1, 0, 1), (0.2, 0.8, 0), (0, 3, 1), (5, 0, 0.5),
                   (0.5, 0.5, 0), (2, 0, 0), (0, 1e-3, 1)]
+    fixed_pos = (1.0, 0.5, 0.0, -0.5, -1.0, 1e-12, -1e-12)
     for lim in fixed_lims:
-        for pos in (1.0, 0.5, 0.0, -0.5, -1.0, 1e-12, -1e-12):
+        for pos in fixed_pos:
             slice_attrs(lim, pos)
+            slice_attrs(lim, pos, order=rng.sample(['lim', 'neg_lim', 'ratio'], 3))     # any reading order
             for p in pgrid:
                 slice_case(lim, pos, p, 'slice-grid', sample=True)
+            for p in endpoints:
+                slice_case(lim, pos, p, 'slice-endpoints', sample='hist')
     for _ in range(500 * scale):
         lim, pos = rand_lim(), rand_pos()
         slice_case(lim, pos, rand_p(), 'slice-random')
         if rng.random() < 0.3:
-            slice_attrs(lim, pos)
+            slice_attrs(lim, pos, order=rng.sample(['lim', 'neg_lim', 'ratio'], 3))
+    # every end point for random parameter values
+    for _ in range(40 * scale):
+        lim, pos = rand_lim(), rand_pos()
+        for p in ends:
+            slice_case(lim, pos, p, 'slice-endpoints')
     # the known-bad inputs of the two rounding findings, probed individually
     slice_case((0.032, 0, 0.987), 1.0, 1.0, 'slice-F2-probe')
     slice_case((0.39196807998287797, 0, 0.00795003897287172), -1.0, 0.5, 'slice-F6-probe')
@@ -521,6 +691,163 @@ def run(ctx):
                 viol('special-unit-lim', 'a unit limit at pos 1 is not the pure single-Pauli model',
                      {'lim': list(lim), 'p': p, 'got': [repr(v) for v in ds]})
 
+    lap('slice')
+    # ---- 4b. object-reuse histories ------------------------------------------------------------------------
+    # One live object (or a pool of two or three, possibly of the same class) is asked for distributions at a
+    # sequence of different probabilities, with its attributes (bias / axis / lim / neg_lim / ratio / pos / label /
+    # repr) read in between in varying orders, probabilities asked again, and every mutable value it hands out
+    # overwritten by the caller.  EVERY answer goes through the same direct checks and the same model comparison as
+    # the answer of a fresh object; attributes must be the documented values, equal to those of an unused object,
+    # and unchanged throughout.
+    import numpy as np
+
+    def scribble(v):
+        try:
+            if isinstance(v, np.ndarray):
+                v[...] = 7
+            elif isinstance(v, list):
+                for i_ in range(len(v)):
+                    v[i_] = 7
+        except Exception:  # noqa
+            pass
+
+    def hist_p():
+        return rng.choice(pgrid + endpoints) if rng.random() < 0.4 else rand_p()
+
+    def hist_p_yx():
+        # tiny p costs ~0.7 s in the engine (sampled there, see yx_case); the rest of the grid and the end points
+        return rng.uniform(0.01, 0.99) if rng.random() < 0.6 else rng.choice([v for v in pgrid + endpoints if v == 0 or v > 1e-10])
+
+    def desc_simple(k):
+        name, cls, tok, shape = simple[k]
+        return {'spec': {'model': name}, 'make': cls, 'attrs': {}, 'slice': None, 'rand_p': hist_p, 'names': ['label', 'repr'],
+                'pd': lambda m, p, h: simple_case(name, cls, tok, shape, p, 'history-pd', inst=m, hist=h)}
+
+    def desc_biased(bias, axis):
+        return {'spec': {'model': 'biased', 'bias': bias, 'bias_hex': float(bias).hex(), 'axis': axis},
+                'make': lambda: BiasedDepolarizingErrorModel(bias, axis), 'attrs': {'bias': bias, 'axis': axis.upper()},
+                'slice': None, 'rand_p': hist_p, 'names': ['bias', 'axis', 'label', 'repr'],
+                'pd': lambda m, p, h: biased_case(bias, axis, p, 'history-pd', sample='hist', inst=m, hist=h)}
+
+    def desc_yx(bias):
+        return {'spec': {'model': 'biased-yx', 'bias': bias, 'bias_hex': float(bias).hex()},
+                'make': lambda: BiasedYXErrorModel(bias), 'attrs': {'bias': bias}, 'slice': None, 'rand_p': hist_p_yx,
+                'names': ['bias', 'label', 'repr'],
+                'pd': lambda m, p, h: yx_case(bias, p, 'history-pd', sample='hist', inst=m, hist=h)}
+
+    def desc_slice(lim, pos):
+        return {'spec': {'model': 'slice', 'lim': list(lim), 'pos': pos, 'pos_hex': float(pos).hex()},
+                'make': lambda: CenterSliceErrorModel(lim, pos), 'attrs': {'pos': pos}, 'slice': (lim, pos), 'rand_p': hist_p,
+                'names': ['pos', 'label', 'repr', 'lim', 'neg_lim', 'ratio', 'ratio,lim', 'lim,neg_lim,ratio', 'ratio,neg_lim,lim'],
+                'pd': lambda m, p, h: slice_case(lim, pos, p, 'history-pd', sample='hist', inst=m, hist=h)}
+
+    def rand_desc():
+        r = rng.randrange(8)
+        if r < 2:
+            return desc_simple(rng.randrange(4))
+        if r < 4:
+            return desc_biased(rng.choice(biased_grid + (10 ** rng.uniform(-6, 12),)), rng.choice('XYZxyz'))
+        if r < 5:
+            return desc_yx(rng.choice(yx_grid + (10 ** rng.uniform(-2, 2),)))
+        return desc_slice(rng.choice(fixed_lims + [rand_lim()]), rng.choice(fixed_pos + (rand_pos(), rng.uniform(0, 1))))
+
+    def final_reads(descs):
+        out = []
+        for i_, d_ in enumerate(descs):
+            out += [(i_, 'attr', nm) for nm in rng.sample(d_['names'], len(d_['names']))]
+        return out
+
+    def sweep_ops(descs, ps):
+        """object 0 swept over ps, attributes read in between now and then"""
+        ops = []
+        for p in ps:
+            if rng.random() < 0.35:
+                ops.append((0, 'attr', rng.choice(descs[0]['names'])))
+            ops.append((0, 'pd', p))
+        return ops + final_reads(descs)
+
+    def rand_ops(descs, n):
+        ops, asked = [], [[] for _ in descs]
+        for _ in range(n):
+            i_ = rng.randrange(len(descs))
+            if rng.random() < 0.65:
+                p = rng.choice(asked[i_]) if asked[i_] and rng.random() < 0.2 else descs[i_]['rand_p']()
+                asked[i_].append(p)
+                ops.append((i_, 'pd', p))
+            else:
+                ops.append((i_, 'attr', rng.choice(descs[i_]['names'])))
+        return ops + final_reads(descs)
+
+    def run_history(descs, ops, kind):
+        hist = Hist([d_['spec'] for d_ in descs])
+        ref, insts = [], []
+        for d_ in descs:
+            try:
+                u = d_['make']()                       # an object that is never used: its label and repr
+                ref.append({'label': u.label, 'repr': repr(u)})
+                insts.append(d_['make']())
+            except Exception as e:  # noqa
+                viol('ctor-domain', 'documented parameters rejected: %s' % exc_class(e), d_['spec'])
+                return
+        first = [dict() for _ in descs]
+        ctx.count(('history', hist.hid), True, kind)
+        for (i_, what, arg) in ops:
+            d_, m = descs[i_], insts[i_]
+            if what == 'pd':
+                hist.ops.append((i_, 'pd', float(arg).hex()))
+                d_['pd'](m, arg, hist)
+                scribble(call_pd(m, arg)[0])
+                continue
+            hist.ops.append((i_, 'attr', arg))
+            names = arg.split(',')
+            if d_['slice'] is not None and names[0] in ('lim', 'neg_lim', 'ratio'):
+                slice_attrs(d_['slice'][0], d_['slice'][1], inst=m, hist=hist, order=tuple(names))
+            else:
+                ctx.count(None, False, 'history-attr')
+            for nm in names:
+                try:
+                    v = repr(m) if nm == 'repr' else getattr(m, nm)
+                    r = repr(v)
+                except Exception as e:  # noqa
+                    viol('exception', 'reading %s raised %s: %s' % (nm, exc_class(e), e), with_hist(dict(d_['spec'], attribute=nm), hist))
+                    continue
+                rep = with_hist(dict(d_['spec'], attribute=nm, got=r), hist)
+                if nm in d_['attrs'] and (v != d_['attrs'][nm] or isinstance(v, str) != isinstance(d_['attrs'][nm], str)):
+                    viol('history-attr', 'attribute %s is not the constructor argument' % nm, rep)
+                if nm in ref[i_] and v != ref[i_][nm]:
+                    viol('history-attr', '%s differs from that of an unused object with the same parameters (%s)'
+                         % (nm, ref[i_][nm]), rep)
+                if first[i_].setdefault(nm, r) != r:
+                    viol('history-attr', 'attribute %s changed during the history (first read: %s)' % (nm, first[i_][nm]), rep)
+                scribble(v)
+
+    def some_ps(k, gen):
+        ps = rng.sample(pgrid + endpoints, min(k, len(pgrid) + len(endpoints))) + [gen() for _ in range(max(0, k // 3))]
+        rng.shuffle(ps)
+        return ps
+
+    # (i) sweeps of one object over p, every model and every grid parameter value
+    for k in range(4):
+        run_history([desc_simple(k)], sweep_ops([desc_simple(k)], some_ps(22, hist_p)), 'history-sweep')
+    for axis in 'XYZxyz':
+        for bias in biased_grid if axis in 'XYZ' else (0.5, 10.0, 1e12):
+            ds = [desc_biased(bias, axis)]
+            run_history(ds, sweep_ops(ds, some_ps(ctx.pick(8, 22), hist_p)), 'history-sweep')
+    for bias in yx_grid + (0.3, 3.0):
+        ds = [desc_yx(bias)]
+        run_history(ds, sweep_ops(ds, [p for p in some_ps(ctx.pick(9, 22), hist_p_yx) if p == 0 or p > 1e-10]), 'history-sweep')
+    for lim in fixed_lims:
+        for pos in fixed_pos + (0.25, 0.9, -0.75):
+            ds = [desc_slice(lim, pos)]
+            run_history(ds, sweep_ops(ds, some_ps(ctx.pick(6, 22), hist_p)), 'history-sweep')
+    # (ii) random histories over pools of one to three live objects (same or different classes / parameters)
+    for _ in range(90 * scale):
+        ds = [rand_desc() for _ in range(rng.choice([1, 2, 2, 3]))]
+        if len(ds) > 1 and rng.random() < 0.3:
+            ds[1] = ds[0]            # two objects with identical parameters
+        run_history(ds, rand_ops(ds, rng.randint(4, 14)), 'history-random')
+
+    lap('histories')
     # ---- 5. constructor domains ----------------------------------------------------------------------
     def ctor_result(f):
         try:
@@ -639,14 +966,18 @@ def run(ctx):
         except Exception:  # noqa
             pass
 
+    lap('ctor')
     # ---- correspondence with the extracted model -----------------------------------------------------------
     out = ctx.model('c16', req)
     for fn, ans in zip(pend, out):
         fn(ans)
 
+    lap('engine')
     # ---- in-kernel shard: verified checkers on a sample, inside Coq --------------------------------------------
     items = []
-    for (p, fd, line) in kern[:150]:
+    k2 = kern2[::max(1, len(kern2) // ctx.pick(40, 120))][:ctx.pick(40, 120)]
+    ctx.extra['kernel_cases_histories_endpoints'] = len(k2)
+    for (p, fd, line) in kern[:150] + k2:
         t = line.split()
         pq = coq_q(F(p))
         if t[0] in ('depol', 'bitflip', 'phaseflip', 'bitphase'):
@@ -666,6 +997,7 @@ def run(ctx):
             'Open Scope Q_scope.\nDefinition checks : list bool :=\n [' + ';\n  '.join(items) + '].\n'
             'Example corr : forallb (fun b => b) checks = true.\nProof. vm_compute. reflexivity. Qed.\n')
     ctx.kernel_cases('sample', text)
+    lap('kernel sample')
     ctx.extra['kernel_cases'] = len(items)
     # bit-exact shard: the binary64 model (ErrorModels/DistFloat.v) reproduces the implementation's floats exactly,
     # including the negative Pr(I) of finding F2
@@ -676,8 +1008,11 @@ def run(ctx):
              + ';\n  '.join(fitems) + '].\nExample corr : forallb (fun b => b) checks = true.\n'
              'Proof. vm_compute. reflexivity. Qed.\n')
     ctx.kernel_cases('binary64', ftext)
+    lap('kernel binary64')
     ctx.extra['kernel_cases_binary64'] = len(fitems)
     ctx.extra['engine_requests'] = len(req)
+    ctx.extra['failing_inputs_by_key'] = dict(seen_keys)
+    lap('violations by key: %r' % seen_keys)
 
 
 def replay(path):
@@ -688,6 +1023,43 @@ def replay(path):
     d = json.load(open(path))
     print(json.dumps(d, indent=1))
     r = d.get('replay', {})
+
+    def build(sp):
+        name = sp.get('model')
+        if name == 'biased':
+            return BiasedDepolarizingErrorModel(float.fromhex(sp['bias_hex']), sp['axis'])
+        if name == 'biased-yx':
+            return BiasedYXErrorModel(float.fromhex(sp['bias_hex']))
+        if name == 'slice':
+            return CenterSliceErrorModel(tuple(sp['lim']), float.fromhex(sp['pos_hex']) if 'pos_hex' in sp else sp['pos'])
+        return {'depolarizing': DepolarizingErrorModel, 'bit-flip': BitFlipErrorModel, 'phase-flip': PhaseFlipErrorModel,
+                'bit-phase-flip': BitPhaseFlipErrorModel}[name]()
+
+    if isinstance(r.get('history'), dict):
+        # an operation history over live objects: rebuild the pool and run the operations again, in order
+        try:
+            h = r['history']
+            pool = [build(sp) for sp in h['instances']]
+            for k, (i, what, arg) in enumerate(h['ops']):
+                try:
+                    if what == 'pd':
+                        out = pool[i].probability_distribution(float.fromhex(arg))
+                    else:
+                        out = [repr(pool[i]) if nm == 'repr' else getattr(pool[i], nm) for nm in arg.split(',')]
+                except Exception as e:  # noqa
+                    out = '%s: %s' % (type(e).__name__, e)
+                print('now: op %d%s object %d %s %s -> %r' % (k, ' (failing)' if k == h.get('failing_op') else '', i, what,
+                                                                float.fromhex(arg) if what == 'pd' else arg, out))
+        except Exception as e:  # noqa
+            print('replay: %s: %s' % (type(e).__name__, e))
+        return 0
+    if r.get('model') == 'slice' and 'read_order' in r:
+        try:
+            m = build(r)
+            print('now:', [(nm, getattr(m, nm)) for nm in r['read_order']])
+        except Exception as e:  # noqa
+            print('replay: %s: %s' % (type(e).__name__, e))
+        return 0
     try:
         name = r.get('model')
         p = float.fromhex(r['p_hex']) if 'p_hex' in r else r.get('p')
